@@ -42,6 +42,11 @@ STRUCTS = {
     "ring7": {"vars": {"v%d" % i: 2 for i in range(7)}, "cons": [["c%d" % i, ["v%d" % i, "v%d" % ((i + 1) % 7)]] for i in range(7)]},
     # unary constraint on the variable that becomes the root of the pseudo-tree (highest degree) and has children
     "chain3_umid": {"vars": {"x": 2, "y": 2, "z": 2}, "cons": [["c0", ["x", "y"]], ["c1", ["y", "z"]], ["u", ["y"]]]},
+    # variable names where one is a prefix / substring of another
+    "triangle_names": {"vars": {"v1": 2, "v2": 2, "v10": 2}, "cons": [["c0", ["v10", "v2"]], ["c1", ["v2", "v1"]], ["c2", ["v10", "v1"]]]},
+    "chain3_names": {"vars": {"v1": 2, "v10": 2, "v100": 2}, "cons": [["c0", ["v1", "v10"]], ["c1", ["v10", "v100"]]]},
+    # the unconstrained variable sits in the middle of the lexical order
+    "pair_isomid": {"vars": {"x": 2, "y": 2, "z": 2}, "cons": [["c0", ["x", "z"]]]},
     "pair_vcost2": {"vars": {"x": 2, "y": 2}, "cons": [["c0", ["x", "y"]]], "varcosts": ["x", "y"]},
     # scopes listed descendant-first / in reverse lexical order (dimension order differs from the tree order)
     "chain3_rev":  {"vars": {"x": 2, "y": 2, "z": 2}, "cons": [["c0", ["y", "x"]], ["c1", ["z", "y"]]]},
